@@ -281,6 +281,15 @@ static void list_checks(Rng& rng, const std::function<T(Rng&)>& gen, const char*
 				e.push_back(a[k]);
 			require("sub-list-definition", s == e, [&] { return tj().i("i1", i1).i("i2", i2).i("returned", (long long) s.size()).i("expected", (long long) e.size()); });
 		}
+	// "up to the end" requests: upper indices far beyond the list, incl. values that are negative when read as int
+	for(unsigned i2 : {0x7fffffffu, 0x80000000u, 0x80000003u, 0xfffffffeu, 0xffffffffu})
+		for(int i1 : {-1, 0, 1, (int) a.size() - 1, (int) a.size()})
+		{
+			std::vector<T> s = Sub_List(a, i1, i2), e;
+			for(int k = std::max(i1, 0); k < (int) a.size(); k++)
+				e.push_back(a[k]);
+			require("sub-list-definition", s == e, [&] { return tj().i("i1", i1).d("i2", (double) i2).i("returned", (long long) s.size()).i("expected", (long long) e.size()); });
+		}
 	// List_Contains / Find_Indices
 	T probe = (!a.empty() && rng.coin(0.7)) ? a[rng.below(a.size())] : gen(rng);
 	bool has = false;
